@@ -54,6 +54,11 @@ def T():
         from torch_frame.data import Dataset
         from torch_frame.data.stats import StatType
         from torch_frame.nn import encoder as E
+        import functools
+        import tqdm
+        from torch_frame.data import mapper as _mapper       # (mini-batch loops of the embedders: stderr noise only)
+        if getattr(_mapper.tqdm, 'func', None) is not tqdm.tqdm:
+            _mapper.tqdm = functools.partial(tqdm.tqdm, disable=True)
         torch.set_default_dtype(torch.float64)
         _T.update(np=np, pd=pd, torch=torch, tf=torch_frame, NA=NAStrategy, stype=stype, Dataset=Dataset,
                   Stat=StatType, E=E)
@@ -170,6 +175,62 @@ def gen_column(rng, st, n, name, allow_missing=True, train=None, opts=None):
     return col
 
 
+TEXT_WORDS = ['red', 'Red', 'blue shoe', 'img/001.png', 'img/002.png', '', 'None', 'nan', '-1', 'a,b', 'sports', 'sportswear',
+              'a longer sentence with several words', 'é']
+
+
+def stub_vec(w, salt, s):
+    """the deterministic stand-in for a text / image embedding model: float32-exact eighths, a function of the raw cell"""
+    pos = sum((i + 1) * ord(c) for i, c in enumerate(s))
+    return [((len(s) * 31 + (j + 1) * pos + 7 * j + salt) % 251 - 125) / 8.0 for j in range(w)]
+
+
+class StubEmbedder:
+    """callable handed to TextEmbedderConfig / ImageEmbedderConfig (no model, no file access)"""
+
+    def __init__(self, w, salt):
+        self.w, self.salt = w, salt
+
+    def __call__(self, xs):
+        torch = T()['torch']
+        return torch.tensor([stub_vec(self.w, self.salt, str(x)) for x in xs], dtype=torch.get_default_dtype()).reshape(len(xs), self.w)
+
+
+def gen_child_column(rng, via, n, name, w=None, train=None):
+    """a text_embedded / image_embedded column (`via` = 'text' | 'image'): raw strings, embedded by a stub embedder of
+    width `w`; the materialized frame carries it BEHIND the plain embedding columns of the parent stype `embedding`"""
+    if train is not None:
+        w, salt = train['w'], train['salt']
+    else:
+        w, salt = w or rng.randint(1, 5), rng.randrange(97)
+    vals = []
+    for _ in range(n):
+        k = rng.random()
+        vals.append(None if k < 0.1 else rng.choice(TEXT_WORDS) if k < 0.6 else rng.choice(TEXT_WORDS) + str(rng.randrange(30)))
+    return {'name': name, 'stype': 'embedding', 'via': via, 'w': w, 'salt': salt, 'values': vals}
+
+
+EMPTY_PATTERNS = ['first', 'middle', 'last', 'last2', 'first+last', 'all-but-one', 'all']
+
+
+def apply_empty_pattern(col, pat, rng):
+    """family: ragged cells that are EMPTY (the empty list, as opposed to the missing marker) in the first / middle /
+    last rows of the frame or in (nearly) all rows; the other rows keep their cells, the row before an empty one is made
+    non-empty where possible (so that a neighbour has items to lose)"""
+    vals = col['values']
+    n = len(vals)
+    toks = sorted({t for v in vals if v for t in v.split(',')}) or ['p']
+    rows = {'first': [0], 'middle': [n // 2], 'last': [n - 1], 'last2': [n - 2, n - 1], 'first+last': [0, n - 1],
+            'all-but-one': [i for i in range(n) if i != n // 2], 'all': list(range(n))}[pat]
+    rows = sorted({r for r in rows if 0 <= r < n})
+    for r in range(n):
+        if r in rows:
+            vals[r] = ''
+        elif not vals[r] and (r + 1 in rows or pat == 'all-but-one'):
+            vals[r] = ','.join(rng.sample(toks, min(len(toks), rng.randint(1, 3))))
+    return col
+
+
 def gen_post(rng, allow_ln=True):
     r = rng.random()
     if r < 0.45:
@@ -274,21 +335,81 @@ def gen_names(rng, k, special):
     return used
 
 
+def gen_target(rng, n, name, kind):
+    """target column of the transform layouts: regression floats (rarely with a missing value), binary or multiclass
+    integer labels (every class occurs when the table is long enough)"""
+    if kind == 'reg':
+        vals = [_f32(rng) for _ in range(n)]
+        if n > 2 and rng.random() < 0.2:
+            vals[rng.randrange(n)] = None
+        if len({v for v in vals if v is not None}) < 2 and n >= 2:
+            vals[0], vals[1] = 0.5, -1.25
+    else:
+        k = 2 if kind == 'bin' else rng.choice([3, 4])
+        vals = [rng.randrange(k) for _ in range(n)]
+        for q, pos in enumerate(rng.sample(range(n), min(k, n))):
+            vals[pos] = q
+    return {'name': name, 'kind': kind, 'values': vals}
+
+
+def empty_batches(rng, cols, n):
+    """batches in which the rows whose ragged cells are all empty come first / in the middle / last / alone"""
+    mc = [c for c in cols if c['stype'] == 'multicategorical']
+    if not mc or n < 2:
+        return []
+    E = [r for r in range(n) if all(c['values'][r] == '' for c in mc)]
+    N = [r for r in range(n) if r not in E]
+    if not E:
+        return []
+    rng.shuffle(N)
+    h = len(N) // 2
+    forms = [N + E, E + N, N[:h] + E + N[h:], E, N + E + E, N + E[-1:]]
+    out = []
+    for idx in rng.sample(forms, 2):
+        if idx:
+            out.append({'t': rng.choice(['list', 'tensor64', 'tensor32']), 'idx': idx})
+    return out
+
+
 def gen_case(rng, with_eval=False, force_num_cls=None, stress=None):
     """`stress` = None (the small default) or a dict of options drawn by the check:
     rows / ncols / ncat / width / cell / ch (sizes from the stress ladder), special (sentinel look-alike names and
     categories), edge / f64 (edge magnitudes, float64-only values), lm (probability of LinearModelEncoder per
-    stype), extra (keys for absent stypes)"""
+    stype), extra (keys for absent stypes), children (text_embedded / image_embedded columns with stub embedders merged
+    behind the plain embedding columns), layout (the frame handed to the encoder is produced by a transform:
+    'permuted' column lists, 'cat_to_num', 'mi_sort'), empty (pattern of EMPTY ragged cells), single (one stype only),
+    mutate (the caller edits returned values in place between calls)"""
     stress = stress or {}
     n = stress.get('rows') or rng.choice([1, 2, 3, 4, 5, 6, 8, 12])
+    layout = stress.get('layout')
+    if stress.get('empty') and not stress.get('rows') and n < 3:
+        n = rng.choice([3, 4, 5, 6, 8])
+    if layout in ('cat_to_num', 'mi_sort') and not stress.get('rows') and n < 3:
+        n = rng.choice([3, 4, 5, 6, 8, 12])
     present = [s for s in STYPES if rng.random() < 0.65]
+    if stress.get('single'):
+        present = [rng.choice(STYPES)]
+    if layout == 'cat_to_num':
+        present = ['numerical', 'categorical'] if rng.random() < 0.75 else ['categorical']
+    elif layout == 'mi_sort':
+        present = ['numerical']
+    if stress.get('empty') and layout in (None, 'permuted') and 'multicategorical' not in present:
+        present.append('multicategorical')
+        present.sort(key=STYPES.index)
     if force_num_cls and 'numerical' not in present:
         present.append('numerical')
     if not present:
         present = [rng.choice(STYPES)]
-    if stress.get('extra') and len(present) == len(STYPES):
-        present.remove(rng.choice([s for s in STYPES if not (force_num_cls and s == 'numerical')]))
+    # the stypes of the frame the encoder sees (a transform may move columns to another stype)
+    final = ['numerical'] if layout in ('cat_to_num', 'mi_sort') else list(present)
+    if stress.get('extra') and len(final) == len(STYPES):
+        drop = rng.choice([s for s in STYPES if not (force_num_cls and s == 'numerical')])
+        present.remove(drop)
+        final.remove(drop)
     counts = {st: rng.choice([1, 1, 2, 3]) for st in present}
+    if layout == 'mi_sort' or (layout == 'permuted' and rng.random() < 0.8):
+        for st in present:
+            counts[st] = max(counts[st], rng.choice([2, 3, 4]))     # an order needs >= 2 columns to be visible
     wide = None
     if stress.get('ncols'):
         wide = rng.choice(present)
@@ -300,16 +421,51 @@ def gen_case(rng, with_eval=False, force_num_cls=None, stress=None):
     big = rng.choice(present) if (stress.get('ncat') or stress.get('width')) else None
     if stress.get('ncat'):
         big = rng.choice([s for s in present if s in ('categorical', 'multicategorical')] or [None])
-        if big is None:
-            big = rng.choice(['categorical', 'multicategorical'])
+        if big is None and layout != 'mi_sort':      # (MutualInformationSort only takes numerical-only frames)
+            big = rng.choice(['categorical', 'multicategorical']) if layout in (None, 'permuted') else 'categorical'
             present.append(big)
             counts[big] = rng.choice([1, 2])
-    if stress.get('width'):
+            if big not in final and layout in (None, 'permuted'):
+                final.append(big)
+    if stress.get('width') and layout in (None, 'permuted'):
         if 'embedding' not in present:
             present.append('embedding')
+            final.append('embedding')
             counts['embedding'] = rng.choice([1, 2])
         big = 'embedding'
-    names = gen_names(rng, sum(counts.values()), stress.get('special'))
+    # text_embedded / image_embedded children of the parent stype `embedding`
+    children = []
+    if stress.get('children') and layout in (None, 'permuted'):
+        children = [rng.choice(['text', 'image']) for _ in range(rng.choice([1, 1, 2, 3]))]
+        if 'embedding' not in present:
+            present.append('embedding')
+            final.append('embedding')
+            counts['embedding'] = rng.choice([0, 1, 2])     # 0: the parent stype consists of children only
+    present.sort(key=STYPES.index)
+    final.sort(key=STYPES.index)
+    need_target = layout in ('cat_to_num', 'mi_sort')
+    names = gen_names(rng, sum(counts.values()) + len(children) + (1 if need_target else 0), stress.get('special'))
+    target_name = names.pop() if need_target else None
+    child_names = []
+    if children:
+        k_plain = counts.get('embedding', 0)
+        pool = sorted(names[-(k_plain + len(children)):]) if k_plain + len(children) else []
+        del names[len(names) - len(pool):]
+        mode = rng.choice(['children-first', 'children-last', 'interleaved', 'random'])
+        if mode == 'children-first':
+            child_names, plain = pool[:len(children)], pool[len(children):]
+        elif mode == 'children-last':
+            plain, child_names = pool[:k_plain], pool[k_plain:]
+        elif mode == 'interleaved':
+            child_names = pool[0::2][:len(children)]
+            child_names += [x for x in pool if x not in child_names][:len(children) - len(child_names)]
+            plain = [x for x in pool if x not in child_names]
+        else:
+            rng.shuffle(pool)
+            child_names, plain = pool[:len(children)], pool[len(children):]
+        rng.shuffle(child_names)
+        emb_names = list(plain)
+        rng.shuffle(emb_names)
     cols = []
     for st in present:
         for j in range(counts[st]):
@@ -317,10 +473,22 @@ def gen_case(rng, with_eval=False, force_num_cls=None, stress=None):
                     'f64': stress.get('f64') and force_num_cls != 'bucket'}
             if st == big and j == 0:
                 opts.update(ncat=stress.get('ncat'), width=stress.get('width'), cell=stress.get('cell'))
-            cols.append(gen_column(rng, st, n, names.pop(), opts=opts))
+            nm = emb_names.pop() if (children and st == 'embedding') else names.pop()
+            cols.append(gen_column(rng, st, n, nm, opts=opts))
+    if children:
+        plain_w = {len(c['values'][0]) for c in cols if c['stype'] == 'embedding'}
+        for via, nm in zip(children, child_names):
+            cols.append(gen_child_column(rng, via, n, nm))
+        kids = [c for c in cols if c.get('via')]
+        if len(plain_w | {c['w'] for c in kids}) < 2 and (plain_w or len(kids) > 1):
+            kids[0]['w'] += 1              # different widths: a permuted EMB_DIM list must be visible
+    if stress.get('empty'):
+        for c in cols:
+            if c['stype'] == 'multicategorical' and (rng.random() < 0.8 or stress['empty'] == 'all'):
+                apply_empty_pattern(c, stress['empty'] if rng.random() < 0.8 else rng.choice(EMPTY_PATTERNS), rng)
     rng.shuffle(cols)                      # DataFrame column order is unrelated to the canonical order
     enc = {}
-    for st in present:
+    for st in final:
         lm = st in LM_STYPES and rng.random() < stress.get('lm', 0.0) and not (force_num_cls and st == 'numerical')
         enc[st] = gen_encoder(rng, st, 'linmodel' if lm else (force_num_cls if st == 'numerical' else None))
     if any(isinstance(v, float) and v in F64_VALUES for c in cols if c['stype'] == 'numerical' for v in c['values']) \
@@ -328,26 +496,46 @@ def gen_case(rng, with_eval=False, force_num_cls=None, stress=None):
         for c in cols:                     # LinearBucketEncoder only runs in float32 (see partial_notes)
             if c['stype'] == 'numerical':
                 c['values'] = [0.5 if isinstance(v, float) and v in F64_VALUES else v for v in c['values']]
-    order = list(present)
+    order = list(final)
     rng.shuffle(order)                     # insertion order of stype_encoder_dict
     case = {'kind': 'wise', 'nrows': n, 'cols': cols, 'enc': enc, 'enc_order': order,
             'ch': stress.get('ch') or rng.choice([1, 2, 3, 4]), 'pseed': rng.randrange(1 << 30),
             'batches': gen_batches(rng, n, stress.get('batch'))}
+    if stress.get('empty'):
+        case['batches'] += empty_batches(rng, cols, n)
+    if layout:
+        case['layout'] = {'t': layout, 'seed': rng.randrange(1 << 30)}
+        if need_target:
+            kind = 'reg' if layout == 'mi_sort' else rng.choice(['reg', 'reg', 'bin', 'multi'])
+            case['target'] = gen_target(rng, n, target_name, kind)
     if stress.get('extra'):
-        keys, bad = gen_extra_keys(rng, present)
+        keys, bad = gen_extra_keys(rng, final)
         if keys:
             case['extra_keys'] = keys
             for k in keys:                 # absent keys are interleaved with the present ones in the user's dict
                 case['enc_order'].insert(rng.randint(0, len(case['enc_order'])), '+' + str(keys.index(k)))
     if stress.get('hist'):
         case['hist'] = stress['hist']
+    if stress.get('mutate'):
+        case['mutate'] = stress['mutate']
     if stress.get('block_dtype'):
         case['block_dtype'] = stress['block_dtype']
     if with_eval:
         m = rng.choice([1, 2, 3, 5])
         case['eval_nrows'] = m
-        case['eval_cols'] = [gen_column(rng, c['stype'], m, c['name'], train=c,
+        case['eval_cols'] = [gen_child_column(rng, c['via'], m, c['name'], train=c) if c.get('via') else
+                             gen_column(rng, c['stype'], m, c['name'], train=c,
                                         opts={'special': stress.get('special'), 'ncat': None}) for c in cols]
+        if layout == 'cat_to_num':
+            # (the transform itself refuses a frame one of whose categorical columns has no fitted category at all)
+            for c, ec in zip(cols, case['eval_cols']):
+                seen = sorted({v for v in c['values'] if v is not None}) if c['stype'] == 'categorical' else None
+                if seen and not any(v in seen for v in ec['values']):
+                    ec['values'][rng.randrange(m)] = rng.choice(seen)
+        if stress.get('empty'):
+            for c in case['eval_cols']:
+                if c['stype'] == 'multicategorical':
+                    apply_empty_pattern(c, rng.choice(EMPTY_PATTERNS), rng)
     return case
 
 
@@ -363,7 +551,7 @@ def _val(v):
     return v
 
 
-def make_df(cols, n):
+def make_df(cols, n, target=None):
     t = T()
     pd, np = t['pd'], t['np']
     data = {}
@@ -371,23 +559,123 @@ def make_df(cols, n):
         st, vals = c['stype'], c['values']
         if st == 'numerical':
             data[c['name']] = pd.Series([np.nan if v is None else _val(v) for v in vals], dtype='float64')
-        elif st == 'embedding':
+        elif st == 'embedding' and not c.get('via'):
             s = pd.Series([None] * n, dtype=object)
             for i, v in enumerate(vals):
                 s.iloc[i] = [float(_val(x)) for x in v]
             data[c['name']] = s
         else:
             data[c['name']] = pd.Series(list(vals), dtype=object)
+    if target is not None:
+        if target['kind'] == 'reg':
+            data[target['name']] = pd.Series([np.nan if v is None else v for v in target['values']], dtype='float64')
+        else:
+            data[target['name']] = pd.Series([f'cls{v}' for v in target['values']], dtype=object)
     return pd.DataFrame(data)
+
+
+class Source:
+    """what the encoder is built from when the frame is produced by a transform: the transformed statistics, the
+    transformed frame and the route new DataFrames take (the dataset's converter, then the fitted transform)"""
+
+    def __init__(self, ds, col_stats, tensor_frame, post):
+        self.ds, self.col_stats, self.tensor_frame, self.post = ds, col_stats, tensor_frame, post
+
+    def convert_to_tensor_frame(self, df):
+        return self.post(self.ds.convert_to_tensor_frame(df))
+
+
+def permute_columns(tf, seed):
+    """the frame with the column list of every stype re-ordered (as MutualInformationSort does for numerical columns):
+    same cells, same names, another order of the column axis"""
+    import random
+    t = T()
+    torch = t['torch']
+    r = random.Random(seed)
+    fd, nd = {}, {}
+    for s in tf.stypes:
+        names = tf.col_names_dict[s]
+        perm = list(range(len(names)))
+        r.shuffle(perm)
+        if perm == sorted(perm) and len(perm) > 1:
+            perm = perm[1:] + perm[:1]
+        feat = tf.feat_dict[s]
+        fd[s] = feat[:, torch.tensor(perm, dtype=torch.long)] if isinstance(feat, torch.Tensor) else feat[:, perm]
+        nd[s] = [names[q] for q in perm]
+    return t['tf'].TensorFrame(fd, nd, tf.y)
+
+
+def _stub_sklearn():
+    """MutualInformationSort imports two scoring functions from scikit-learn (not installed here) in its constructor;
+    the ranking only has to be SOME function of the data: |covariance with the target| stands in for it"""
+    import sys
+    import types
+    try:
+        import sklearn.feature_selection  # noqa
+        return None
+    except Exception:  # noqa
+        pass
+    np = T()['np']
+
+    def score(x, y):
+        x, y = np.asarray(x, dtype=float), np.asarray(y, dtype=float)
+        return np.abs(((x - x.mean(0)) * (y - y.mean())[:, None]).mean(0))
+    pkg, mod = types.ModuleType('sklearn'), types.ModuleType('sklearn.feature_selection')
+    mod.mutual_info_classif = mod.mutual_info_regression = score
+    pkg.feature_selection = mod
+    sys.modules['sklearn'], sys.modules['sklearn.feature_selection'] = pkg, mod
+    return ['sklearn', 'sklearn.feature_selection']
 
 
 def make_dataset(case):
     t = T()
     st = t['stype']
-    df = make_df(case['cols'], case['nrows'])
-    col_to_stype = {c['name']: st(c['stype']) for c in case['cols']}
-    ds = t['Dataset'](df, col_to_stype, col_to_sep=',', col_to_time_format=TIME_FMT).materialize()
-    return ds
+    target = case.get('target')
+    df = make_df(case['cols'], case['nrows'], target)
+    col_to_stype, tcfg, icfg = {}, {}, {}
+    for c in case['cols']:
+        if c.get('via') == 'text':
+            from torch_frame.config import TextEmbedderConfig
+            col_to_stype[c['name']] = st.text_embedded
+            tcfg[c['name']] = TextEmbedderConfig(text_embedder=StubEmbedder(c['w'], c['salt']),
+                                                 batch_size=None if c['salt'] % 2 else 2)
+        elif c.get('via') == 'image':
+            from torch_frame.config import ImageEmbedderConfig
+            col_to_stype[c['name']] = st.image_embedded
+            icfg[c['name']] = ImageEmbedderConfig(image_embedder=StubEmbedder(c['w'], c['salt']),
+                                                  batch_size=None if c['salt'] % 2 else 3)
+        else:
+            col_to_stype[c['name']] = st(c['stype'])
+    kw = {}
+    if tcfg:
+        kw['col_to_text_embedder_cfg'] = tcfg
+    if icfg:
+        kw['col_to_image_embedder_cfg'] = icfg
+    if target is not None:
+        col_to_stype[target['name']] = st.numerical if target['kind'] == 'reg' else st.categorical
+        kw['target_col'] = target['name']
+    ds = t['Dataset'](df, col_to_stype, col_to_sep=',', col_to_time_format=TIME_FMT, **kw).materialize()
+    layout = (case.get('layout') or {}).get('t')
+    if layout is None:
+        return ds
+    if layout == 'permuted':
+        post = lambda tf: permute_columns(tf, case['layout']['seed'])      # noqa
+        return Source(ds, ds.col_stats, post(ds.tensor_frame), post)
+    if layout == 'cat_to_num':
+        from torch_frame.transforms import CatToNumTransform
+        tr = CatToNumTransform()
+    else:
+        from torch_frame import TaskType
+        from torch_frame.transforms import MutualInformationSort
+        added = _stub_sklearn()
+        try:
+            tr = MutualInformationSort(task_type=TaskType.REGRESSION)
+        finally:
+            import sys
+            for k in added or []:
+                sys.modules.pop(k, None)
+    tr.fit(ds.tensor_frame, ds.col_stats)
+    return Source(ds, tr.transformed_stats, tr(ds.tensor_frame), tr)
 
 
 def na_of(name):
@@ -537,6 +825,62 @@ def build(case):
     tf = adapt_frame(case, tf)
     apply_history(case, tf, wise)
     return ds, tf, wise
+
+
+def snapshot(feat):
+    """hashable content of a feature block (dense tensor / ragged storage), NaN-stable"""
+    torch = T()['torch']
+    if isinstance(feat, torch.Tensor):
+        return ('t', str(feat.dtype), core.stable_hash(torch.nan_to_num(feat.double(), nan=-12345.678).tolist()))
+    return ('m', core.stable_hash(torch.nan_to_num(feat.values.double(), nan=-12345.678).tolist()),
+            feat.offset.tolist(), feat.num_rows, feat.num_cols)
+
+
+def family_labels(case, r):
+    """labels of the third-round families for the input-distribution histogram (shared by C12 / C13)"""
+    labs = []
+    kids = [c for c in case['cols'] if c.get('via')]
+    if kids:
+        plain = [c for c in case['cols'] if c['stype'] == 'embedding' and not c.get('via')]
+        labs.append('cfg:merged-embedding:' + '+'.join(sorted({c['via'] for c in kids})) +
+                    ('+plain' if plain else '-only'))
+        if len({c['w'] for c in kids} | {len(c['values'][0]) for c in plain}) > 1:
+            labs.append('cfg:merged-embedding:different-widths')
+    if case.get('layout'):
+        labs.append('cfg:frame-from-transform:' + case['layout']['t'] +
+                    (':' + case['target']['kind'] if case['layout']['t'] == 'cat_to_num' else ''))
+    for st, v in (r.get('layout') or {}).items():
+        labs.append(f'names:{st}:{v}')
+    for c in case['cols']:
+        if c['stype'] == 'multicategorical':
+            vals = c['values']
+            n = len(vals)
+            if vals and vals[-1] == '':
+                labs.append('ragged:empty-cell:last-row')
+            if vals and vals[0] == '':
+                labs.append('ragged:empty-cell:first-row')
+            if any(v == '' for v in vals[1:-1]):
+                labs.append('ragged:empty-cell:middle-row')
+            if vals and all(v == '' for v in vals):
+                labs.append('ragged:empty-cell:all-rows')
+            if any(v is None for v in vals) and any(v == '' for v in vals):
+                labs.append('ragged:empty-and-missing-cells')
+    for b in case.get('batches', []):
+        if b['t'] in ('list', 'tensor32', 'tensor64') and b['idx']:
+            mc = [c for c in case['cols'] if c['stype'] == 'multicategorical']
+            if mc and all(c['values'][b['idx'][-1]] == '' for c in mc):
+                labs.append('ragged:batch-ends-with-empty-cells')
+    for op in case.get('mutate', []):
+        labs.append('alias:caller-edits-returned-' + op)
+    if case.get('mutate'):
+        labs.append(f"alias:caller-edits:groups-{len(case['enc'])}")
+    return labs
+
+
+def names_layout(tf):
+    """per stype: is the frame's column list sorted? (labels of the input distribution)"""
+    return {s.value: ('sorted' if list(tf.col_names_dict[s]) == sorted(tf.col_names_dict[s]) else 'unsorted')
+            for s in tf.stypes if len(tf.col_names_dict[s]) > 1}
 
 
 def apply_history(case, tf, wise):
